@@ -82,14 +82,29 @@ EW_REPRESENTATIVES = [
 ]
 
 
+def ewd_insts(tier):
+    out = []
+    ranks = [(1, 1), (2, 1), (1, 3), (3, 3)] if tier == "quick" else [(a, b) for a in (1, 2, 3, 4) for b in (1, 2, 3, 4)]
+    for ra, rb in ranks:
+        for compat in (True, False):
+            name = "c04_ewd_r%d_r%d_%s" % (ra, rb, "ok" if compat else "refuse")
+            out.append(Instance(name, "ewd_instance!(%s, 12, %d, %d, %s);" % (name, ra, rb, str(compat).lower()), expect_panic=not compat,
+                                function="element_wise_dimensions",
+                                contract="compatible dims -> right-aligned pairwise maximum; incompatible -> panic",
+                                bounds="ranks %d/%d concrete; every dimension SYMBOLIC in 1..3 (all %s pairs)" % (ra, rb, "compatible" if compat else "incompatible"),
+                                descr="broadcast shape"))
+    return out
+
+
 def c04_instances(tier):
-    insts = []
+    insts = ewd_insts(tier)
     if tier == "quick":
         for a, b in EW_REPRESENTATIVES:
             insts.append(ew_inst("add", a, b))
-        for op in ("sub", "mul", "div", "axpy"):
-            for a, b in EW_REPRESENTATIVES[6:11]:
+        for op in ("sub", "mul", "axpy"):
+            for a, b in (EW_REPRESENTATIVES[6], EW_REPRESENTATIVES[10]):
                 insts.append(ew_inst(op, a, b))
+        insts += [ew_inst("div", [2, 2], [2]), ew_inst("div", [1, 2], [2, 1, 2])]
     else:
         seen = set()
         for a in shapes_upto(3, (1, 2)):
